@@ -974,7 +974,7 @@ Qed.
 
 Lemma cinv_step_both w o : CInv w → wf_c10 w o → CInv (pstep w o).1 ∧ freed_unassigned w (pstep w o).1 ∧ w_provider (pstep w o).1 = w_provider w.
 Proof.
-  intros HC [Hwf Hc]. destruct o as [e|key nodes o fl|ns name uid node o fl|n o oun fl|ip o ocl fl|k ip ocl fl|key fl|op|conf].
+  intros HC [Hwf Hc]. destruct o as [e|key nodes o fl|ns name uid node o fl|n o oun fl|ip o ocl fl|k ip ocl fl|sp fl|op|conf].
   - cbn [pstep fst]. by apply cinv_env.
   - by apply cinv_filter.
   - destruct Hc as (Hnode & Hfu & Hk3). by apply cinv_bind.
